@@ -285,3 +285,109 @@ impl<A: RingBuf<Item = Tag> + 'static> System for CapScript<A> {
     }
     fn finish(self, _out: &mut StepOut) {}
 }
+
+
+// ---------------------------------------------------------------------------------------------
+// Payload size and total buffer size as the varied quantity (C18): a FixedHeapBuf-backed channel
+// whose buffer is larger than 1 MiB / 2 MiB in total, with payloads from 1 byte to 64 KiB, is
+// filled and drained completely; no try_send / try_receive / send / receive poll may allocate or
+// free (the buffer has to be allocated once, up front, whatever its size).
+
+pub struct Big<const N: usize>([u8; N]);
+
+#[derive(Clone, Copy, Debug, PartialEq)]
+pub enum BigOp {
+    Run(u8),
+}
+pub struct BigPayload {
+    ran: Option<u8>,
+}
+
+fn big_script<const N: usize>(cap: usize, out: &mut StepOut) {
+    harness::reset_thread_state();
+    let chan: Box<GenericChannel<PL, Big<N>, FixedHeapBuf<Big<N>>>> = Box::new(GenericChannel::with_capacity(cap));
+    let _ = harness::take_alloc_counts();
+    let ws = harness::waker(W_S);
+    for round in 0..2 {
+        for i in 0..cap {
+            let r = lib(|| chan.try_send(Big([i as u8; N])).is_ok());
+            let (na, nf) = harness::take_alloc_counts();
+            if na + nf > 0 {
+                out.v("C18", "alloc-in-call", format!("payload {} bytes, capacity {}: try_send number {} (round {}) performed {} allocations / {} frees", N, cap, i + 1, round, na, nf));
+                return;
+            }
+            if !matches!(r, Ok(true)) {
+                out.v("C09", "capacity", format!("payload {} bytes, capacity {}: try_send number {} failed", N, cap, i + 1));
+                return;
+            }
+        }
+        // one more sender parks and is served by the first receive
+        let c: &'static GenericChannel<PL, Big<N>, FixedHeapBuf<Big<N>>> = unsafe { &*(&*chan as *const _) };
+        let mut parked = Box::pin(c.send(Big([7; N])));
+        let _ = harness::take_alloc_counts();
+        let r = lib(|| parked.as_mut().poll(&mut Context::from_waker(&ws)).is_pending());
+        let (na, nf) = harness::take_alloc_counts();
+        if na + nf > 0 || !matches!(r, Ok(true)) {
+            out.v("C18", "alloc-in-call", format!("payload {} bytes, capacity {}: the poll of a send future on the full channel performed {} allocations / {} frees (pending: {:?})", N, cap, na, nf, r));
+            return;
+        }
+        for i in 0..cap + 1 {
+            let r = lib(|| chan.try_receive().map(|b| b.0[0]).ok());
+            let (na, nf) = harness::take_alloc_counts();
+            if na + nf > 0 {
+                out.v("C18", "alloc-in-call", format!("payload {} bytes, capacity {}: try_receive number {} performed {} allocations / {} frees", N, cap, i + 1, na, nf));
+                return;
+            }
+            let want = if i < cap { i as u8 } else { 7 };
+            if r != Ok(Some(want)) {
+                out.v("C09", "fifo-order", format!("payload {} bytes, capacity {}: try_receive number {} yielded {:?}, expected {}", N, cap, i + 1, r, want));
+                return;
+            }
+            if i == 0 {
+                let r = lib(|| parked.as_mut().poll(&mut Context::from_waker(&ws)).is_ready());
+                let (na, nf) = harness::take_alloc_counts();
+                if na + nf > 0 || !matches!(r, Ok(true)) {
+                    out.v("C18", "alloc-in-call", format!("payload {} bytes, capacity {}: completing the parked send performed {} allocations / {} frees (ready: {:?})", N, cap, na, nf, r));
+                    return;
+                }
+            }
+        }
+        drop(parked);
+        let _ = harness::take_alloc_counts();
+    }
+    drop(chan);
+    let _ = harness::take_alloc_counts();
+}
+
+impl System for BigPayload {
+    type Op = BigOp;
+    fn new(_cfg: &Cfg) -> Self {
+        BigPayload { ran: None }
+    }
+    fn enabled(&self) -> Vec<BigOp> {
+        if self.ran.is_some() {
+            vec![]
+        } else {
+            (0..6).map(BigOp::Run).collect()
+        }
+    }
+    fn apply(&mut self, op: BigOp, out: &mut StepOut) {
+        let BigOp::Run(i) = op;
+        self.ran = Some(i);
+        match i {
+            0 => big_script::<1>(2_200_000, out),
+            1 => big_script::<16>(140_000, out),
+            2 => big_script::<256>(9_000, out),
+            3 => big_script::<4096>(600, out),
+            4 => big_script::<65536>(40, out),
+            _ => big_script::<4096>(100, out),
+        }
+        if out.viol.is_empty() {
+            out.o("ok");
+        }
+    }
+    fn fingerprint(&self) -> Vec<u8> {
+        vec![self.ran.map_or(255, |v| v)]
+    }
+    fn finish(self, _out: &mut StepOut) {}
+}
